@@ -133,7 +133,7 @@ func execFootprint(input string) Result {
 	if a.ok && b.ok {
 		odd := false
 		for _, k := range []string{"log", "warc", "temp", "db", "sock", "pipe", "other"} {
-			slack := 1 // a reading may fall between the close and the open of a log rotation
+			slack := 1                      // a reading may fall between the close and the open of a log rotation
 			if k == "sock" || k == "pipe" { // idle keep-alive connections come and go; the harness's own proxy lives in the same process
 				slack = 3
 				if kv["proxy"] == "1" {
@@ -189,7 +189,7 @@ func genFootprint(r *Rng, i int, tier string) string {
 		if r.Chance(50) {
 			s += " loglvl=debug"
 		}
-		if r.Chance(70) {
+		if r.Chance(70) && light { // (with large bodies the heap reaches the limit and the collector spends the run at it)
 			s += " nogc=1"
 		}
 	} else if light && r.Chance(40) {
